@@ -361,6 +361,9 @@ pub fn build(spec: &PathSpec) -> Built {
     // (not for the value-stack fault: the recursion test needs more stack than the site)
     let recurse: usize = if spec.depth >= 1 && spec.contexts.is_empty() && !matches!(spec.kind, ErrKind::Stackoverflow | ErrKind::StackoverflowAtCapture) { ((spec.nested >> 13) & 3) as usize } else { 0 };
     let main_last = (spec.nested >> 12) & 1 == 1;
+    // statements that are the bare expression (no SetGlobalVar around the site / the calls): the
+    // first instruction of such a statement belongs to the statement's own card
+    let bare = (spec.nested >> 15) & 1 == 1 && !needs_mark;
     let mut rec_call: Option<CardId> = None;
     for lvl in 0..=spec.depth {
         let mut f = Function::default();
@@ -421,7 +424,7 @@ pub fn build(spec: &PathSpec) -> Built {
             if needs_mark {
                 f.cards.push(Card::set_global_var("marksink", Card::call_native("mark", vec![c(CardBody::ScalarNil)])));
             }
-            f.cards.push(Card::set_global_var("site_result", expr.clone()));
+            f.cards.push(if bare { expr.clone() } else { Card::set_global_var("site_result", expr.clone()) });
             f.cards.push(Card::return_card(Card::scalar_int(1)));
         } else {
             let target = qualified(lvl + 1);
@@ -431,6 +434,8 @@ pub fn build(spec: &PathSpec) -> Built {
             };
             chain.push(call.id);
             let stmt = match spec.call_style[lvl] {
+                1 if bare => c(CardBody::Add(bin(Card::scalar_int(1), call))),
+                _ if bare => call,
                 1 => Card::set_global_var(format!("r{lvl}"), c(CardBody::Add(bin(Card::scalar_int(1), call)))),
                 _ => Card::set_global_var(format!("r{lvl}"), call),
             };
@@ -801,7 +806,9 @@ impl Check for C15 {
          instruction, a value stack / call stack of exactly insufficient size (also a value stack that runs full exactly while \
          a closure captures a variable); plus planted compile errors (empty variable \
          name, unresolvable call target, a ForEach with an empty loop-variable name). In front of the interesting card sit 0-3 \
-         cards that are assignments, comments, empty composites or loops / ifs with comment bodies. The budget is also swept over \
+         cards that are assignments, comments, empty composites or loops / ifs with comment bodies; in half of the programs the \
+         site and the calls are bare expression statements (the first instruction of the statement is the card's own), and a \
+         one-card function sits in front of a module boundary. The budget is also swept over \
          the whole run: wherever it expires every trace entry must resolve to a card (or trace[0] to the function epilogue) and \
          never to a Comment card. Non-trivial = the provoked error landed on the site; distinct = distinct spec hash."
             .to_string()
